@@ -346,6 +346,12 @@ prchunk_reset(prch_ctx_t ctx)
 }
 
 FDEFU int
+prchunk_crlfp(prch_ctx_t ctx)
+{
+	return ctx->cur_lno > 0U && lftermdp(ctx, ctx->cur_lno - 1U);
+}
+
+FDEFU int
 prchunk_haslinep(prch_ctx_t ctx)
 {
 /* the second condition is to allow unterminated last lines */
